@@ -349,6 +349,8 @@ class Interp:
     def try_merge(self, kids, env, fn, depth):
         if getattr(self, "in_trial", False):
             raise _Trial()
+        if getattr(self, "with_heap", False) and any(x.k == "CallExpr" for k_ in kids[1:] for x in k_.walk()):
+            return False        # arms with calls are observable (recorded events): explore them separately
         acc0 = len(self.acc)
         um0 = len(self.unknown_mem)
         self.in_trial = True
@@ -758,6 +760,8 @@ class Interp:
                 if op in ("<", "<=", ">", ">=", "==", "!="):
                     return int({"<": a.off < b.off, "<=": a.off <= b.off, ">": a.off > b.off,
                                 ">=": a.off >= b.off, "==": a.off == b.off, "!=": a.off != b.off}[op])
+            if a.base != b.base and op in ("==", "!="):
+                return int(op == "!=")          # pointers into two different objects
             return U
         if isinstance(a, Ptr) and op in ("+", "-") and not isinstance(b, int):
             return Ptr(a.base, U, a.esz)
